@@ -17,8 +17,30 @@ OUT = '/tmp/ipt_mutest_out'
 def sh(cmd, **kw):
     return subprocess.run(cmd, shell=True, capture_output=True, text=True, **kw)
 
+SCR = '/tmp/ipt_scratch2'
+
 def restore():
     sh(f'git -C {REPO} checkout -- . && git -C {REPO} clean -fdq -e target')
+
+def scratch_setup():
+    global REPO
+    os.makedirs(SCR, exist_ok=True)
+    if not os.path.exists(f'{SCR}/repo'):
+        sh(f'git -C /repo worktree add --detach {SCR}/repo HEAD')
+    else:
+        sh(f'git -C {SCR}/repo checkout -q --detach $(git -C /repo rev-parse HEAD) && git -C {SCR}/repo checkout -- .')
+    sh(f'rm -rf {SCR}/harness && cp -r {VERIF}/harness {SCR}/harness && rm -rf {SCR}/harness/fuzz')
+    ct = open(f'{SCR}/harness/Cargo.toml').read().replace('path = "/repo"', f'path = "{SCR}/repo"')
+    open(f'{SCR}/harness/Cargo.toml', 'w').write(ct)
+    open(f'{SCR}/harness/.cargo/config.toml', 'w').write(f'[net]\noffline = true\n[build]\ntarget-dir = "{SCR}/target"\n')
+    REPO = f'{SCR}/repo'
+
+def scratch_check(cid, tier, env):
+    env = dict(env, CARGO_NET_OFFLINE='true', CARGO_TARGET_DIR=f'{SCR}/target', VERIF_CLI_BIN=f'{SCR}/target/release/islamic_prayer_times')
+    subprocess.run('cargo build --release --offline', shell=True, cwd=f'{SCR}/harness', env=env, capture_output=True)
+    if cid == 'C19':
+        subprocess.run(f'cargo build --release --offline --bin islamic_prayer_times --manifest-path {SCR}/repo/Cargo.toml', shell=True, env=env, capture_output=True)
+    return subprocess.run([f'{SCR}/target/release/ipt-verif', cid, tier], capture_output=True, text=True, env=env)
 
 def main():
     args = sys.argv[1:]
@@ -26,15 +48,19 @@ def main():
     tier = 'quick'
     only = None
     save = False
+    scratch = False
     while args and args[0].startswith('--'):
         a = args.pop(0)
         if a == '--tests': run_tests = True
         elif a == '--tier': tier = args.pop(0)
         elif a == '--only': only = set(args.pop(0).split(','))
         elif a == '--save-regressions': save = True
+        elif a == '--scratch': scratch = True
     path = args[0] if args else f'{VERIF}/sensitivity/mutants.json'
     muts = json.load(open(path))
-    if sh(f'git -C {REPO} status --porcelain').stdout.strip():
+    if scratch:
+        scratch_setup()
+    elif sh(f'git -C {REPO} status --porcelain').stdout.strip():
         print('refusing: /repo is not clean'); sys.exit(2)
     os.makedirs(OUT, exist_ok=True)
     respath = f'{VERIF}/sensitivity/results.json'
@@ -62,7 +88,7 @@ def main():
             for cid in m.get('run', m.get('expect', [])):
                 t0 = time.time()
                 env = dict(os.environ, VERIF_OUT=OUT)
-                r = subprocess.run([f'{VERIF}/check', cid, tier], capture_output=True, text=True, env=env)
+                r = scratch_check(cid, tier, env) if scratch else subprocess.run([f'{VERIF}/check', cid, tier], capture_output=True, text=True, env=env)
                 sig = [l.strip() for l in r.stdout.splitlines() if l.strip().startswith('signature:')]
                 rec['checks'][cid] = {'exit': r.returncode, 'wall_s': round(time.time() - t0, 1), 'signature': sig[:1], 'tier': tier}
                 print(f'{name:40s} {cid} exit={r.returncode} {sig[:1]} ({time.time()-t0:.1f}s)', flush=True)
